@@ -33,7 +33,7 @@ def plan(tier):
 
 
 def required_counters(tier):
-    return ["writable_result_buffers", "results_mutated", "repeat_calls_compared", "view_inputs", "arrow_inputs", "groups_mutated", "shares_memory_checks"]
+    return ["writable_result_buffers", "results_mutated", "repeat_calls_compared", "view_inputs", "arrow_inputs", "groups_mutated", "shares_memory_checks", "collection_inputs"]
 
 
 def features(case):
@@ -132,6 +132,9 @@ def _build(case):
         else:
             keys.append(gen.key_array(k, c, index=idx, splits=case.get("ksplits")))
     keys_obj = keys[0] if len(keys) == 1 else keys
+    if case.get("keys_as_dict"):
+        # keys under other names than the objects carry: the objects themselves must keep theirs
+        keys_obj = {f"renamed{i}": k for i, k in enumerate(keys)}
     vc = case.get("vc", "np")
     if vc == "np_view":
         base = gen.val_np(case["val"])
@@ -141,6 +144,14 @@ def _build(case):
         val = gen.val_array(case["val"], vc, index=idx, splits=case.get("vsplits"))
     mask = gen.mask_obj(case.get("mask"), index=idx)
     times = ops.times_obj(case["times"], idx) if case.get("times") is not None else None
+    # value collections: the caller's list / dict itself is an input too (its elements must stay what they were)
+    coll = case.get("collection")
+    if coll == "list1":
+        val = [val]
+    elif coll == "list2":
+        val = [val, val]
+    elif coll == "dict":
+        val = {"a": val, "b": val}
     return keys_obj, val, mask, times
 
 
@@ -160,6 +171,8 @@ def check(case, ctx):
     if case.get("vc") in gen.ARROW_FAMILY or any(c in gen.ARROW_FAMILY for c in (case.get("kc") or [])):
         ctx.count("arrow_inputs")
     inputs = [keys_obj, val, mask, times]
+    if case.get("collection"):
+        ctx.count("collection_inputs")
     lib.STATE["watch"] = inputs
     try:
         snap0 = cmp.snapshot(inputs)[0]
@@ -252,8 +265,16 @@ def gen_case(rng, dtypes):
             c = "np"
         kc.append(c)
     case["kc"] = kc
+    if case["op"] != "groups" and vc in ("np", "pd", "np_view", "pd_arrow") and rng.random() < 0.3:
+        case["collection"] = gen.pick(rng, ["list1", "list2", "dict"])
     case["ksplits"] = gen.random_splits(rng, n, 4)
     case["vsplits"] = gen.random_splits(rng, n, 4)
+    if rng.random() < 0.15:
+        case["keys_as_dict"] = True
+        if rng.random() < 0.4 and len(case["keys"]) == 1 and n > 1:
+            step = int(gen.pick(rng, [1, 2, -1]))
+            case["keys"] = [{"kind": "range", "start": 3, "stop": 3 + step * n, "step": step, "vals": list(range(3, 3 + step * n, step)), "name": "orig"}]
+            case["kc"] = ["pd_index"]
     if vc != "pd" or any(c not in ("pd", "np", "np_view") for c in kc):
         case["index"] = None
     if case["mask"] is not None and case["mask"]["kind"] == "bool_series" and vc != "pd":
